@@ -146,7 +146,7 @@ static std::string genRefText(vh::Rng& rng) {
   const int n = rng.range(0, 5);
   for (int i = 0; i < n; ++i) {
     const int r = rng.range(0, 99);
-    if (r < 55) out += "@{" + rng.pick(SV{ "X1", "X11", "X111", "X2", "D1", "D12", "F1", "x1", "X\xCE\xBE" }) + "|" + rng.pick(REF_TAGS) + "}";
+    if (r < 55) out += "@{" + rng.pick(SV{ "X1", "X11", "X111", "X2", "D1", "D12", "F1", "x1", "X\xCE\xBE", " X1", "X1 ", " X11 ", "\tX1" }) + "|" + rng.pick(REF_TAGS) + "}";
     else if (r < 65) out += "@{" + std::to_string(rng.range(-2, 2)) + "|" + rng.pick(SV{ "stem", "X1", "" }) + "}";
     else if (r < 75) out += rng.pick(SV{ "@{X1|nomn,sing", "@{X1}", "@@{X1|nomn}", "{X1}", "@{X1|}", "@{|nomn}", "@{X1|nomn,sing}}", "@{X1|@{X11|nomn}}" });
     else out += rng.pick(SV{ "X1", " ", "\xD0\x96", "\xF0\x9F\x98\x80", "x", "X11 ", "\xE2\x88\xAA" });
@@ -161,7 +161,7 @@ static std::string genDenseRefText(vh::Rng& rng) {
   std::string out = rng.pick(SV{ "", "\xD0\x96", "a", "\xE2\x80\x94 " });
   const int n = rng.range(2, 5);
   for (int i = 0; i < n; ++i) {
-    out += "@{" + rng.pick(SV{ "X1", "X1", "X11", "D1", "X2" }) + "|" + rng.pick(REF_TAGS) + "}";
+    out += "@{" + rng.pick(SV{ "X1", "X1", "X11", "D1", "X2", " X1", "X1 " }) + "|" + rng.pick(REF_TAGS) + "}";
     const int seps = rng.range(0, 3);
     for (int k = 0; k < seps; ++k) out += rng.pick(SV{ "\xD0\x96", "\xE2\x80\x94", "\xC2\xAB", "\xC2\xBB", "\xF0\x9F\x98\x80", " ", ",", "\xE2\x88\xAA" });
   }
